@@ -8,7 +8,9 @@ import (
 	"reflect"
 	"strconv"
 	"strings"
+	"sync"
 	"testing"
+	"time"
 
 	"gitee.com/xuesongtao/protoc-go-valid/valid"
 	"pgregory.net/rapid"
@@ -198,9 +200,18 @@ func genDumpStruct(t *rapid.T, depth, maxDepth int, facts *dumpFacts) (desc.T, d
 				name = name + strings.Repeat("x", []int{61, 62, 63, 64, 127}[i%5]) // long names (62..128 bytes)
 			case 2:
 				name = name + "_9é"
+			case 3:
+				if i == 0 {
+					name = "Time" // an ordinary field that happens to be called like the embedded time.Time
+				}
 			}
 		}
-		ty.Fields = append(ty.Fields, desc.F{Name: name, T: ft})
+		f := desc.F{Name: name, T: ft}
+		if rapid.IntRange(0, 5).Draw(t, "otherCodecTag") == 4 {
+			// tags of other codecs (the dumper and the "field names as keys" reading of the property know no tags)
+			f.Tags = map[string]string{rapid.SampledFrom([]string{"yaml", "db", "gorm", "xml", "bson", "valid"}).Draw(t, "codec"): rapid.SampledFrom([]string{"-", "-", "col,omitempty", "required"}).Draw(t, "codecTag")}
+		}
+		ty.Fields = append(ty.Fields, f)
 		v.E = append(v.E, fv)
 	}
 	if n == 0 {
@@ -434,6 +445,7 @@ func keysOf(m map[string]interface{}) []string {
 var prevDump, prevDumpClone string
 
 func checkDump(c *DumpCase) string {
+	c20History()
 	rv := desc.Build(desc.Type(c.T), c.V)
 	src := rv.Interface()
 	var dump string
@@ -468,6 +480,21 @@ func checkDump(c *DumpCase) string {
 		return m + fmt.Sprintf("   [dump: %s] [standard encoder: %s]", dump, std)
 	}
 	return ""
+}
+
+var c20HistoryOnce sync.Once
+
+// c20History: process history outside the domain - a struct with an embedded time.Time is dumped once
+// before anything else (its output is not judged; what it leaves behind must not change later dumps).
+func c20History() {
+	c20HistoryOnce.Do(func() {
+		_ = ev.Guard(func() {
+			_ = valid.GetDumpStructStr(&struct {
+				time.Time
+				Name string
+			}{Time: time.Unix(1700000000, 0), Name: "first"})
+		})
+	})
 }
 
 func TestC20(t *testing.T) {
